@@ -5,7 +5,10 @@ sees it), random document libraries, every fault kind at every request index fol
   c18.match / c18.parse / c18.quote) on the same libraries, page sizes, filters, START FOLDERS (folder_paths) and
   fault schedules; exact comparison of results (order included), of what the generator list_files_filtered
   DELIVERED BEFORE an exception, of the by-path request URLs, error class / status / URL, opened / closed
-  counters and request counts.
+  counters and request counts.  The driver receives RAW items (members present, facet shapes); what an item is, is
+  decided by the Lean model (`classify`, Model/SharePointRaw.lean).  Folder names include literal percent-escape
+  look-alikes (with / without a sibling of the decoded name); optional members of items and answers are varied
+  independently of the library's real content (`fx` / `opt` / `ropt`).
 * search / replay / known_witnesses: an oracle of the PROPERTY STATEMENT on the real client that does not
   use the Lean model: reference tree walk, reference filter (exact rational timestamps), open/close
   accounting of every response object, error family, status + URL of the failed request, healthy retry.
@@ -26,7 +29,7 @@ from urllib.parse import unquote
 
 from run import Broken, Violation
 
-GEN = ["SharePoint", "PyClient"]
+GEN = ["SharePoint", "PyClient", "SharePointItems"]
 RULE = ("library = random folder tree (depth<=4, 0..7 items per folder: files / folders / facet-less items / non-dict "
         "entries; names with spaces, %, #, +, &, non-ASCII; optional fields missing; Graph timestamps with 0..7 "
         "fraction digits, offsets, missing or junk) x page size 1..N x call (list_all_files | list_files_filtered "
@@ -38,7 +41,15 @@ RULE = ("library = random folder tree (depth<=4, 0..7 items per folder: files / 
         "quoting), decorated with outer slashes, missing folders, paths of files, string-prefix siblings; 80% mutually unrelated, "
         "20% nested / repeated / '' (known finding folder_paths.duplicate). list_files_filtered is consumed item by item, so the "
         "files delivered before an exception are compared, too. ~650 (quick) start-folder strings over the library alphabet and "
-        "arbitrary code points go through _get_folder_by_path alone (request URL vs. model vs. RFC 3986 reference)")
+        "arbitrary code points go through _get_folder_by_path alone (request URL vs. model vs. RFC 3986 reference). "
+        "ESCAPE LOOK-ALIKES: half of the folder names come from a pool with names containing a literal %XY (Rates %2B fees, "
+        "Growth 100%25, Q%31, %41rchive, a%2Fb, %2525, caf%C3%A9 ...), half of these beside a SIBLING that carries the decoded name; "
+        "the quote stream adds strings built from %XY / % / hex digits. OPTIONAL MEMBERS: every folder and file item carries an "
+        "option word chosen independently of its content: folder facet {childCount} (truthful) | {} | {childCount, view} | {view}, "
+        "size missing / 0 / n, dates, webUrl, parentReference (truthful), fileSystemInfo (with other timestamps), unrelated facets, "
+        "file facet {} / mimeType / hashes; answers with / without @odata.context, @odata.count, `value` on empty pages. "
+        "20% of the filtered calls go through list_files_modified_since / list_files_created_since. The driver receives RAW items; "
+        "what an item is, is decided by the Lean model (classify)")
 ASSUMPTIONS = [
     "file timestamps carry a zone (Graph emits ...Z); filter bounds are timezone-aware datetimes (a naive bound makes "
     "Python raise TypeError inside FileFilter.matches; not part of the property's quantifier)",
@@ -54,6 +65,8 @@ ASSUMPTIONS = [
     "the call must raise; consumers that abandon the generator early (close()) are not modelled",
     "a failure while reading the body of a 2xx response (socket timeout in read()) is not among the property's fault kinds",
     "the JSON -> abstract page conversion of the harness (value missing = [], falsy nextLink = none, ...) mirrors dict.get",
+    "optional members are MISSING or present with truthful values (childCount = number of children, parentReference.path = the "
+    "parent's path); facets are JSON objects (a null / non-object facet is malformed, not an optional member missing)",
 ]
 TRUSTED = ["fake Graph transport + JSON->abstract conversion in harness/props/c18.py",
            "model S2T/Model/SharePoint.lean of client.py (_send, _get_json, fetch_access_token, get_site_id, "
@@ -76,10 +89,16 @@ def _mods():
 
 
 # ============================================================================ library generator
-_NAME_STEMS = ["report", "Annual Report", "q1 100%", "a#b", "x+y", "r&d", "übersicht", "résumé", "日本語", "a.b",
+_NAME_STEMS = ["r%2Bd", "100%25", "%41", "report", "Annual Report", "q1 100%", "a#b", "x+y", "r&d", "übersicht", "résumé", "日本語", "a.b",
                "notes (final)", "it's", "v1.2", "UPPER", "MiXed", "data=1", "semi;colon", "tilde~", "at@x", "comma,s", "_", "-"]
 _EXTS = [".pdf", ".PDF", ".Pdf", ".docx", ".DOCX", ".txt", ".xlsx", ".tar.gz", "", ".md", ".pdf.bak", ".p"]
 _FOLDERS = ["Documents", "Reports", "2024-Q1", "2024-Q2", "General", "My Folder", "50% done", "A#1", "ünï", "x+y", "a.b", "Archive"]
+# ESCAPE LOOK-ALIKES: folder names that contain a literal '%' + two hex digits (data, not an escape) -> the name a
+# percent-decoding would turn them into.  Both occur as folder names; half of the time the partner is a SIBLING.
+_LOOKALIKE = {"Rates %2B fees": "Rates + fees", "Growth 100%25": "Growth 100%", "Q%31": "Q1", "%41rchive": "Archive",
+              "50%25 done": "50% done", "x%2By": "x+y", "a%2Fb": "a", "caf%C3%A9": "café", "%2525": "%25", "My%20Folder": "My Folder",
+              "q%3f": "q?", "%7e": "~"}
+_FOLDER_POOL = _FOLDERS + list(_LOOKALIKE) + ["Rates + fees", "Growth 100%", "Q1", "café", "cafe\u0301", "%25"]
 
 
 def _ts(rng, base_s):
@@ -134,16 +153,23 @@ def gen_lib(rng, max_depth=4, max_items=7, budget=None):
                     nm = "c" + nm
                 used.add(nm)
                 node = {"k": "file", "name": nm, "id": new_id(), "created": _ts(rng, base_s), "modified": _ts(rng, base_s),
-                        "opt": rng.randint(0, 15)}
+                        "opt": rng.randint(0, 15) | (rng.choice([0, 0, rng.randint(0, 31)]) << 4)}
                 if rng.random() < 0.02:
                     node["name"] = None      # `name` key missing
                 nodes.append(node)
             elif r < 0.85 and depth < max_depth:
-                nm = rng.choice(_FOLDERS)
+                nm = rng.choice(_FOLDER_POOL if rng.random() < 0.5 else _FOLDERS)
                 while nm in used:
                     nm = nm + "_"
                 used.add(nm)
-                nodes.append({"k": "folder", "name": nm, "id": new_id(), "children": folder(depth + 1)})
+                # `fx`: which optional members the folder item carries, INDEPENDENTLY of its real content (see item_json)
+                nodes.append({"k": "folder", "name": nm, "id": new_id(), "fx": rng.choice([0, rng.randint(0, 1023), rng.randint(0, 1023)]),
+                              "children": folder(depth + 1)})
+                twin = _LOOKALIKE.get(nm)
+                if twin and twin not in used and "/" not in twin and rng.random() < 0.5:
+                    used.add(twin)                     # the sibling that carries the DECODED name
+                    nodes.insert(rng.randrange(len(nodes) + 1), {"k": "folder", "name": twin, "id": new_id(), "fx": rng.randint(0, 1023),
+                                                                 "children": folder(max(depth + 1, max_depth - 1))})
             elif r < 0.95:
                 nodes.append({"k": "other", "name": rng.choice(["Notebook", "pkg"]), "id": new_id()})
             else:
@@ -157,17 +183,51 @@ def lib_size(nodes):
     return sum(1 + (lib_size(n["children"]) if n["k"] == "folder" else 0) for n in nodes)
 
 
-def item_json(n):
+_FSI = {"createdDateTime": "2001-01-01T00:00:00Z", "lastModifiedDateTime": "2031-01-01T00:00:00Z"}
+
+
+def _parent_ref(parent, pid):
+    """truthful `parentReference` (Graph percent-encodes the path)"""
+    return {"driveId": "b!drive", "driveType": "documentLibrary", "id": pid or "ROOT",
+            "path": "/drive/root:" + ("/" + _ref_quote(parent, safe="/") if parent else "")}
+
+
+def item_json(n, parent="", pid=None):
+    """the Graph driveItem of a node.  OPTIONAL MEMBERS are chosen by the node's option word (`fx` for folders, `opt`
+    for files) independently of what the node really is / contains: childCount present or not (truthful when
+    present), facet an empty object or with other members, size missing / 0 / n, dates, webUrl, parentReference,
+    fileSystemInfo (with timestamps that differ from the item's own), unrelated facets."""
     if n["k"] == "junk":
         return n["value"]
     if n["k"] == "other":
         return {"id": n["id"], "name": n["name"], "package": {"type": "oneNote"}}
     if n["k"] == "folder":
-        return {"id": n["id"], "name": n["name"], "folder": {"childCount": len(n["children"])},
-                "webUrl": "https://contoso.sharepoint.com/x", "size": 0,
-                "createdDateTime": "2024-01-01T00:00:00Z", "lastModifiedDateTime": "2024-01-01T00:00:00Z"}
+        fx = n.get("fx")
+        if fx is None:          # legacy rendering (committed cases / replays written before `fx` existed)
+            return {"id": n["id"], "name": n["name"], "folder": {"childCount": len(n["children"])},
+                    "webUrl": "https://contoso.sharepoint.com/x", "size": 0,
+                    "createdDateTime": "2024-01-01T00:00:00Z", "lastModifiedDateTime": "2024-01-01T00:00:00Z"}
+        facet = [{"childCount": len(n["children"])}, {}, {"childCount": len(n["children"]), "view": {"sortBy": "name", "viewType": "thumbnails"}},
+                 {"view": {"sortBy": "name"}}][fx & 3]
+        d = {"id": n["id"], "name": n["name"], "folder": facet}
+        if fx & 4:
+            d["size"] = 0 if fx & 64 else 4096 * (1 + len(n["children"]))
+        if fx & 8:
+            d["createdDateTime"], d["lastModifiedDateTime"] = "2024-01-01T00:00:00Z", "2024-01-01T00:00:00Z"
+        if fx & 16:
+            d["webUrl"] = "https://contoso.sharepoint.com/x"
+        if fx & 32:
+            d["parentReference"] = _parent_ref(parent, pid)
+        if fx & 128:
+            d["specialFolder" if fx & 512 else "shared"] = {"name": "documents"} if fx & 512 else {"scope": "users"}
+        if fx & 256:
+            d["fileSystemInfo"] = dict(_FSI)
+        return d
     o = n.get("opt", 15)
-    d = {"id": n["id"], "file": ({"mimeType": "application/octet-stream"} if o & 1 else {})}
+    facet = {"mimeType": "application/octet-stream"} if o & 1 else {}
+    if o & 256:
+        facet["hashes"] = {"quickXorHash": "AAAA"}
+    d = {"id": n["id"], "file": facet}
     if n["name"] is not None:
         d["name"] = n["name"]
     if n["created"] is not None:
@@ -175,12 +235,18 @@ def item_json(n):
     if n["modified"] is not None:
         d["lastModifiedDateTime"] = n["modified"]
     if o & 2:
-        d["size"] = 1234
+        d["size"] = 0 if o & 16 else 1234
     if o & 4:
         d["webUrl"] = "https://contoso.sharepoint.com/sites/Verif/Shared%20Documents/x"
         d["@microsoft.graph.downloadUrl"] = "https://dl/x"
     if o & 8:
         d["listItem"] = {"fields": {"Title": "t", "Custom": 1, "@odata.etag": "x"}}
+    if o & 32:
+        d["parentReference"] = _parent_ref(parent, pid)
+    if o & 64:
+        d["fileSystemInfo"] = dict(_FSI)
+    if o & 128:
+        d["shared" if o & 16 else "image"] = {"scope": "users"} if o & 16 else {}
     return d
 
 
@@ -214,9 +280,13 @@ class FakeFp(io.BytesIO):
 class FakeGraph:
     """healthy server for one library; `faults` = {request index: fault spec}; counts every response object"""
 
-    def __init__(self, lib, page_size, link_style=0, split=0):
+    def __init__(self, lib, page_size, link_style=0, split=0, ropt=0):
         self.lib, self.n, self.link_style = lib, max(1, page_size), link_style
+        # `ropt`: optional members of the ANSWERS: 1 = no @odata.context, 2 = an empty page has no `value` member,
+        # 4 = @odata.count present, 8 = token / site answers carry their required member only
+        self.ropt = ropt
         self.folders = {None: lib}
+        self.where = {None: ("", None)}      # folder id -> (its path, its id): for truthful parentReference members
         self._index(lib)
         # page plan per folder: list of (start, end); split=0 -> regular pages of `page_size`;
         # otherwise irregular pages of 0..page_size items (Graph may return short and even empty pages)
@@ -241,11 +311,13 @@ class FakeGraph:
         self.token_url = f"https://login.microsoftonline.com/{TENANT}/oauth2/v2.0/token"
         self.site_url = f"{BASE}/sites/contoso.sharepoint.com:/sites/Verif"
 
-    def _index(self, nodes):
+    def _index(self, nodes, parent=""):
         for n in nodes:
             if n["k"] == "folder":
                 self.folders[n["id"]] = n["children"]
-                self._index(n["children"])
+                path = f"{parent}/{n['name']}" if parent else n["name"]
+                self.where.setdefault(n["id"], (path, n["id"]))
+                self._index(n["children"], path)
 
     # ---- healthy answers: (status, bytes) or ("http", code)
     def _children_url(self, fid, pg):
@@ -261,7 +333,14 @@ class FakeGraph:
         if kids is None or pg >= len(self.plan[fid]):
             return ("http", 404)
         a, b = self.plan[fid][pg]
-        d = {"@odata.context": "ctx", "value": [item_json(k) for k in kids[a:b]]}
+        here, hid = self.where.get(fid, ("", None))
+        d = {"@odata.context": "ctx", "value": [item_json(k, here, hid) for k in kids[a:b]]}
+        if self.ropt & 1:
+            del d["@odata.context"]
+        if self.ropt & 2 and not d["value"]:
+            del d["value"]
+        if self.ropt & 4:
+            d["@odata.count"] = len(kids)
         if pg + 1 < len(self.plan[fid]):
             d["@odata.nextLink"] = self._children_url(fid, pg + 1)
         elif self.link_style == 1:
@@ -273,19 +352,26 @@ class FakeGraph:
         (RFC 3986: an encoded %2F is data, not a delimiter)"""
         nodes = self.lib
         node = None
+        parent, pid = "", None
         for part in [unquote(p) for p in enc.split("/") if p]:
+            if node is not None:
+                parent, pid = (f"{parent}/{node['name']}" if parent else node["name"]), node["id"]
             node = next((n for n in nodes if n["k"] in ("folder", "file") and n.get("name") == part), None)
             if node is None:
                 return ("http", 404)
             nodes = node["children"] if node["k"] == "folder" else []
         if node is None:
             return ("http", 404)
-        return (200, json.dumps(item_json(node), ensure_ascii=False).encode("utf-8"))
+        return (200, json.dumps(item_json(node, parent, pid), ensure_ascii=False).encode("utf-8"))
 
     def healthy(self, url):
         if url == self.token_url:
+            if self.ropt & 8:       # only the required member
+                return (200, b'{"access_token": "eyJ0.tok"}')
             return (200, b'{"token_type": "Bearer", "expires_in": 3599, "access_token": "eyJ0.tok"}')
         if url == self.site_url:
+            if self.ropt & 8:
+                return (200, json.dumps({"id": SRV_SITE}).encode())
             return (200, json.dumps({"id": SRV_SITE, "name": "Verif", "webUrl": SITE_URL}).encode())
         pre = f"{BASE}/sites/{SRV_SITE}/drive/"
         if url.startswith(pre):
@@ -550,18 +636,31 @@ def do_call(client, call):
             got = [meta_tuple(m) for m in client.list_all_files()]
         else:
             # list_files_filtered is a generator: keep what it delivered before an exception
-            for m in client.list_files_filtered(build_filter(C, call["filter"])):
+            for m in _filtered_iter(C, client, call):
                 got.append(meta_tuple(m))
         return ("ok", got, [])
     except Exception as e:  # noqa: BLE001 - the property is about which exceptions may escape
         return ("err", e, got)
 
 
+def _filtered_iter(C, client, call):
+    """list_files_filtered, or one of its two convenience wrappers (`via`) with the same meaning"""
+    f = call["filter"]
+    via = call.get("via")
+    if via in ("modified_since", "created_since"):
+        key = "ma" if via == "modified_since" else "ca"
+        assert all(f.get(k) is None for k in ("ca", "cb", "ma", "mb") if k != key) and not f.get("pats") and f.get(key) is not None
+        fn = client.list_files_modified_since if via == "modified_since" else client.list_files_created_since
+        return fn(us_to_dt(f[key], f.get("offs", 0)), folder_paths=list(f.get("folders") or []) or None,
+                  extensions=list(f.get("exts") or []) or None)
+    return client.list_files_filtered(build_filter(C, f))
+
+
 def run_real(case):
     """runs case['calls'] on one client; fault (if any) applies to absolute request index k.
     returns list of dicts {res, files|exc..., opened, closed, reqs, urls}"""
     _, E = _mods()
-    fake = FakeGraph(case["lib"], case["page"], case.get("link", 0), case.get("split", 0))
+    fake = FakeGraph(case["lib"], case["page"], case.get("link", 0), case.get("split", 0), case.get("ropt", 0))
     if case.get("fault"):
         fake.faults[case["fault"]["k"]] = case["fault"]
     outs = []
@@ -592,15 +691,26 @@ def run_real(case):
 
 
 # ============================================================================ abstract (driver) view
+def _raw_facet(x, key):
+    if key not in x:
+        return None
+    v = x[key]
+    if not isinstance(v, dict):
+        raise AssertionError(f"non-object {key} facet: outside what the fake Graph emits")
+    return {"cc": v.get("childCount"), "extra": bool(set(v) - {"childCount"})}
+
+
 def abs_item(x):
+    """a RAW item for the driver: which members are present and what shape the facets have.  What the item IS
+    (folder / file / neither) is decided by the Lean model (`classify`), not here."""
     if not isinstance(x, dict):
-        return {"t": "other"}
-    if "folder" in x:
-        return {"t": "folder", "name": x.get("name", ""), "id": x.get("id") or None}
-    if "file" in x:
-        return {"t": "file", "name": x.get("name", ""), "id": x.get("id", ""),
-                "created": x.get("createdDateTime"), "modified": x.get("lastModifiedDateTime")}
-    return {"t": "other"}
+        return {"t": "raw", "dict": False}
+    return {"t": "raw", "dict": True, "name": x.get("name"), "hasId": "id" in x, "id": x.get("id"),
+            "folder": _raw_facet(x, "folder"), "file": _raw_facet(x, "file"),
+            "created": x.get("createdDateTime"), "modified": x.get("lastModifiedDateTime"),
+            "opt": {"size": x.get("size"), "webUrl": "webUrl" in x, "downloadUrl": "@microsoft.graph.downloadUrl" in x,
+                    "parentRef": "parentReference" in x, "fileSystemInfo": "fileSystemInfo" in x, "listItem": "listItem" in x,
+                    "extraFacet": any(k in x for k in ("shared", "image", "specialFolder", "package"))}}
 
 
 def abs_body(b):
@@ -639,7 +749,7 @@ def by_path_url(folder_path):
 
 
 def driver_request(case):
-    fake = FakeGraph(case["lib"], case["page"], case.get("link", 0), case.get("split", 0))
+    fake = FakeGraph(case["lib"], case["page"], case.get("link", 0), case.get("split", 0), case.get("ropt", 0))
     urls = fake.all_listing_urls()
     for c in case["calls"]:
         for fp in (c.get("filter", {}).get("folders") or []) if c["kind"] == "filtered" else []:
@@ -714,7 +824,7 @@ def oracle_case(case):
                 want = [m for m in spec if _under(m[4], f["folders"]) and ref_matches(f, m)]
             else:
                 want = [m for m in spec if ref_matches(f, m)]
-        what_call = "list_all_files" if call["kind"] == "all" else f"list_files_filtered({_fdesc(call['filter'])})"
+        what_call = "list_all_files" if call["kind"] == "all" else f"list_files_{call.get('via') or 'filtered'}({_fdesc(call['filter'])})"
         if r["opened"] != r["closed"]:
             add("fault.response-not-closed" if hit else "listing.response-not-closed",
                 f"{what_call}: {r['opened']} responses opened, {r['closed']} closed after the call"
@@ -794,7 +904,19 @@ def gen_case(rng, with_fault=None, filtered=None):
         call["filter"]["folders"] = gen_folders(rng, lib)
         if rng.random() < 0.5:                       # mostly look at the start folders themselves
             call["filter"].update(ca=None, cb=None, ma=None, mb=None, pats=[], exts=[])
-    case = {"lib": lib, "page": page, "link": rng.choice([0, 0, 1]), "split": rng.choice([0, 0, rng.randint(1, 10**6)]), "calls": [call]}
+    if filtered and rng.random() < 0.2:
+        # the convenience wrappers list_files_modified_since / list_files_created_since (also "filtered listings"):
+        # one inclusive lower bound, optional extensions and start folders
+        f = call["filter"]
+        key = rng.choice(["ma", "ca"])
+        since = f.get(key) if f.get(key) is not None else gen_filter(rng, lib).get(key)
+        if since is None:
+            since = 1705312800 * 10**6
+        f.update(ca=None, cb=None, ma=None, mb=None, pats=[])
+        f[key] = since
+        call["via"] = "modified_since" if key == "ma" else "created_since"
+    case = {"lib": lib, "page": page, "link": rng.choice([0, 0, 1]), "split": rng.choice([0, 0, rng.randint(1, 10**6)]),
+            "ropt": rng.choice([0, 0, rng.randint(0, 15)]), "calls": [call]}
     if with_fault is None:
         with_fault = rng.random() < 0.6
     if with_fault:
@@ -848,8 +970,31 @@ def fixed_cases():
 
 
 # ============================================================================ harness entry points
+def _walk_folders(lib):
+    for n in lib:
+        if n["k"] == "folder":
+            yield n, lib
+            yield from _walk_folders(n["children"])
+
+
+def _lib_stats(ctx, lib):
+    look = twin = nocount = 0
+    for n, sibs in _walk_folders(lib):
+        if re.search(r"%[0-9A-Fa-f]{2}", n["name"]):
+            look += 1
+            if any(m["k"] == "folder" and m is not n and m["name"] == unquote(n["name"]) for m in sibs):
+                twin += 1
+        if n.get("fx") is not None and n["fx"] & 1 and n["children"]:
+            nocount += 1
+    if look:
+        ctx.count("names/escape look-alike folder" + ("/with decoded sibling" if twin else ""))
+    if nocount:
+        ctx.count("facets/non-empty folder without childCount")
+
+
 def _case_stats(ctx, case, real):
-    ctx.count("call/" + case["calls"][0]["kind"])
+    ctx.count("call/" + case["calls"][0]["kind"] + ("/" + case["calls"][0]["via"] if case["calls"][0].get("via") else ""))
+    _lib_stats(ctx, case["lib"])
     ctx.count("page_size/" + str(case["page"]) + ("/irregular" if case.get("split") else ""))
     ctx.count("fault/" + (case["fault"]["kind"] if case.get("fault") else "none"))
     fl = case["calls"][0].get("filter", {}).get("folders") if case["calls"][0]["kind"] == "filtered" else None
@@ -958,6 +1103,14 @@ def _quote_correspondence(ctx, broken):
     alphabet = list("abzAZ09 _.-~/%#+&?=:;,@!$'()*[]{}|\\^`<>\"\t") + ["ü", "é", "日", "本", "ß", "\u00a0", "\u07ff", "\u0800", "\uffff", "\U00010000", "\U0010ffff", "\x7f", "\x80"]
     strings = ["", "/", "//", "Docs", "/Docs/", "//Docs//", "Docs/My Reports 50%", "a//b", " /x/ ", "/ /", "ünï/日本語", "x+y/a#1", "50% done/"]
     strings += _FOLDERS + [a + "/" + b for a in _FOLDERS[:6] for b in _FOLDERS[6:]]
+    # escape look-alikes: literal %XY (data), double escapes, the decoded partners, NFC / NFD spellings
+    strings += list(_LOOKALIKE) + list(_LOOKALIKE.values()) + [a + "/" + b for a in list(_LOOKALIKE)[:4] for b in list(_LOOKALIKE)[4:8]]
+    strings += ["%", "%%", "%2", "%2%2B", "%252B", "%25252B", "/%2F/", "a%2fb", "%zz", "%u00e9", "cafe\u0301", "caf\u00e9", "+", "a+b", "a%20b"]
+    hexd = "0123456789abcdefABCDEF"
+    for _ in range(ctx.n(150, 2000)):
+        st = "".join(rng.choice(["%" + rng.choice(hexd) + rng.choice(hexd), "%", rng.choice(hexd), rng.choice(alphabet), "/"])
+                     for _ in range(rng.choice([1, 2, 3, 5])))
+        strings.append(st)
     for _ in range(ctx.n(600, 8000)):
         n = rng.choice([1, 2, 3, 5, 9, 16])
         st = "".join(rng.choice(alphabet) if rng.random() < 0.9 else chr(rng.choice([rng.randrange(0x20, 0xD800), rng.randrange(0xE000, 0x110000)]))
@@ -1099,7 +1252,9 @@ def search(ctx, broken):
         run(case)
     for case in _folder_fault_cases():
         run(case)
-    for nm in _FOLDERS + ["a b", "p%q", "日本語", "x&y=z", "q?", "semi;colon", "[b]", "tilde~", "ä", "\U00010000"]:
+    for case in _lookalike_cases() + _facet_cases():
+        run(case)
+    for nm in list(_LOOKALIKE) + _FOLDERS + ["a b", "p%q", "日本語", "x&y=z", "q?", "semi;colon", "[b]", "tilde~", "ä", "\U00010000"]:
         for case in _quote_oracle_cases(nm + "/" + nm):
             run(case)
     # then the general streams
@@ -1185,6 +1340,69 @@ def _folder_path_cases():
     return out
 
 
+def _lookalike_cases():
+    """start folders whose NAME contains a literal percent-escape look-alike, with and without a sibling that carries
+    the decoded name; through list_files_filtered and the two convenience wrappers"""
+    f = lambda nm: {"k": "file", "name": nm, "id": "ID" + nm, "created": "2024-01-15T10:00:00Z", "modified": "2024-01-15T10:00:00Z", "opt": 15}  # noqa: E731
+    d = lambda nm, fid, kids, fx=0: {"k": "folder", "name": nm, "id": fid, "fx": fx, "children": kids}  # noqa: E731
+    with_twins = [f("root.txt"),
+                  d("Rates %2B fees", "E1", [f("encoded.pdf"), d("Q%31", "E2", [f("deep.txt")]), d("Q1", "E3", [f("q1.txt")])]),
+                  d("Rates + fees", "P1", [f("plus.pdf")]),
+                  d("Growth 100%25", "G1", [f("escape.xlsx")]),
+                  d("Growth 100%", "G2", [f("plain.xlsx")]),
+                  d("%41rchive", "A1", [f("a1.md")]), d("Archive", "A2", [f("a2.md")]),
+                  d("a%2Fb", "S1", [f("s1.txt")]), d("a", "S2", [d("b", "S3", [f("s3.txt")])]),
+                  d("%2525", "D1", [f("d1.txt")]), d("%25", "D2", [f("d2.txt")]), d("%", "D3", [f("d3.txt")])]
+    alone = [f("root.txt"), d("Rates %2B fees", "E1", [f("encoded.pdf"), d("Q%31", "E2", [f("deep.txt")])]),
+             d("Growth 100%25", "G1", [f("escape.xlsx")]), d("%41rchive", "A1", [f("a1.md")]), d("a%2Fb", "S1", [f("s1.txt")]),
+             d("%2525", "D1", [f("d1.txt")])]
+    out = []
+    t = 1705312800 * 10**6
+    for lib, starts in ((with_twins, [["Rates %2B fees"], ["Rates + fees"], ["Rates %2B fees/Q%31"], ["/Rates %2B fees/Q1/"], ["Growth 100%25"],
+                                      ["Growth 100%"], ["%41rchive", "Archive"], ["a%2Fb"], ["a/b"], ["%2525", "%25", "%"],
+                                      ["Growth 100%", "Growth 100%25", "Rates + fees"]]),
+                        (alone, [["Rates %2B fees"], ["Rates %2B fees/Q%31"], ["Growth 100%25"], ["%41rchive"], ["a%2Fb"], ["%2525"],
+                                 ["Rates + fees"], ["Growth 100%"], ["%25"]])):
+        for folders in starts:
+            full = {"ca": None, "cb": None, "ma": None, "mb": None, "pats": [], "exts": [], "offs": 0, "folders": folders}
+            out.append({"lib": lib, "page": 2, "link": 0, "calls": [{"kind": "filtered", "filter": full}]})
+        for via, key in (("modified_since", "ma"), ("created_since", "ca")):
+            full = {"ca": None, "cb": None, "ma": None, "mb": None, "pats": [], "exts": [], "offs": 0, "folders": starts[0] + starts[4]}
+            full[key] = t
+            out.append({"lib": lib, "page": 1, "link": 0, "calls": [{"kind": "filtered", "via": via, "filter": full}]})
+    return out
+
+
+def _facet_cases():
+    """OPTIONAL MEMBERS varied independently of the real content: non-empty folders without childCount (at the root
+    and nested), with other facet members only, really empty folders with and without a count, size 0 / missing,
+    parentReference / fileSystemInfo / unrelated facets present or not; every listing call, several page sizes,
+    answers with and without their own optional members"""
+    def f(nm, opt):
+        return {"k": "file", "name": nm, "id": "ID" + nm, "created": "2024-01-15T10:00:00Z", "modified": "2024-01-15T10:00:00.5Z", "opt": opt}
+    d = lambda nm, fid, fx, kids: {"k": "folder", "name": nm, "id": fid, "fx": fx, "children": kids}  # noqa: E731
+    lib = [f("a.txt", 0),
+           d("Counted", "d1", 0 | 4 | 8 | 16, [f("b.pdf", 2 | 16), f("c.pdf", 2), f("d.pdf", 1 | 32 | 64 | 128 | 256),
+                                                  d("Inner no count", "d2", 1, [f("e.docx", 4 | 8)])]),
+           d("No count", "d3", 1 | 4 | 64 | 32, [f("f.xlsx", 15 | 16 | 32 | 64), d("Deep", "d4", 2 | 256, [f("g.txt", 0)]),
+                                                 d("View only", "d7", 3 | 128 | 512, [f("h.txt", 64)])]),
+           d("Really empty", "d5", 0, []), d("Empty no count", "d6", 1, []), d("Empty view", "d8", 3 | 128, []),
+           f("z size0.txt", 2 | 16)]
+    t = 1705312800 * 10**6
+    out = []
+    for page, ropt in ((1, 0), (2, 15), (100, 2)):
+        for call in ({"kind": "all"},
+                     {"kind": "filtered", "filter": {"ca": None, "cb": None, "ma": None, "mb": None, "pats": [], "exts": [], "offs": 0}},
+                     {"kind": "filtered", "filter": {"ca": None, "cb": None, "ma": None, "mb": None, "pats": [], "exts": [], "offs": 0,
+                                                     "folders": ["No count", "Counted/Inner no count", "Empty no count"]}},
+                     {"kind": "filtered", "via": "modified_since",
+                      "filter": {"ca": None, "cb": None, "ma": t + 500000, "mb": None, "pats": [], "exts": [".txt", ".PDF"], "offs": 0}},
+                     {"kind": "filtered", "via": "created_since",
+                      "filter": {"ca": t, "cb": None, "ma": None, "mb": None, "pats": [], "exts": [], "offs": 0, "folders": ["No count/View only", "Counted"]}}):
+            out.append({"lib": lib, "page": page, "link": 0, "ropt": ropt, "calls": [call]})
+    return out
+
+
 def _known_cases():
     base = _folder_path_cases()[0]
     res = []
@@ -1223,4 +1441,13 @@ def known_witnesses(ctx):
         out += vs
         if vs:
             break
+    # escape look-alike start folders and optional-member presentations (oracle; Lean side: Props/C18_Items.lean)
+    for label, fixed in (("lookalike", _lookalike_cases()), ("facets", _facet_cases())):
+        for case in fixed:
+            ctx.case((label, fingerprint(case)))
+            ctx.count("fixed/" + label)
+            vs = [v for v in oracle_case(case) if not any(o.key == v.key for o in out)]
+            out += vs
+            if vs:
+                break
     return out
